@@ -5,7 +5,7 @@
 From RU Require Import Base.Prelude Base.Utf8 Base.Utf8Facts Model.AsciiSet Gen.Tables Model.PercentEncoding
   Model.HostT Model.UrlRecord Model.Parser Model.Setters Model.WF
   Proofs.C14_Set Proofs.C14_Enc Proofs.C14_Views Proofs.ListN
-  Proofs.C05_Enc Proofs.C05_Parser Proofs.C05_Setters Proofs.C05_History Proofs.C05_Sharp Proofs.C05_Frag.
+  Proofs.C05_Enc Proofs.C05_Parser Proofs.C05_Setters Proofs.C05_History Proofs.C05_Sharp Proofs.C05_Frag Proofs.C05_Query.
 
 (* ================= 1. encoder alphabet ================= *)
 
@@ -164,6 +164,28 @@ Check C05_set_fragment : forall dbg dbg' u input u' f,
   Forall ok_byte f /\ forall d, In d [32; 34; 60; 62; 96] -> ~ In d f.
 Print Assumptions C05_set_fragment.
 
+(* the same for the stored query.  query_oku u (Proofs/C05_Query.v): if query_start u = Some q then
+   ser u = X ++ "?" ++ tq ++ rest with q = |X|, tq inside 0x21..0x7E and free of '#', space, dquote,
+   '<', '>', and rest = [] (no fragment) or fragment_start u = |X| + 1 + |tq|.  A base must have that
+   shape (its query is kept by an empty or fragment-only reference); the result has it again, so the
+   statement chains along joins.  Any encoding override, any input, no hypothesis on the host functions. *)
+Theorem C05_query : forall dbg dbg' hp hpo hd ovr base input u,
+  match base with Some b => query_oku b | None => True end ->
+  parse_url dbg hp hpo hd ovr base input = POk u ->
+  query_oku u
+  /\ forall q, query dbg' u = Some (Some q) -> Forall ok_byte q /\ forall d, In d [35; 32; 34; 60; 62] -> ~ In d q.
+Proof.
+  intros dbg dbg' hp hpo hd ovr base input u Hb Hp.
+  pose proof (parse_url_query dbg hp hpo hd ovr base input u Hb Hp) as H.
+  split; [exact H | intros q Hq; exact (query_oku_query dbg' u q H Hq)].
+Qed.
+Check C05_query : forall dbg dbg' hp hpo hd ovr base input u,
+  match base with Some b => query_oku b | None => True end ->
+  parse_url dbg hp hpo hd ovr base input = POk u ->
+  query_oku u
+  /\ forall q, query dbg' u = Some (Some q) -> Forall ok_byte q /\ forall d, In d [35; 32; 34; 60; 62] -> ~ In d q.
+Print Assumptions C05_query.
+
 (* ================= 3. histories ================= *)
 (* Reachable dbg hp hpo hd : parse without base, parse against a reachable base (any encoding
    override), and any of 19 mutators (9 Url setters, path_segments_mut sessions, 9 quirks setters) with
@@ -181,8 +203,9 @@ Check C05_history : forall dbg hp hpo hd u,
 Print Assumptions C05_history.
 
 (* what is not proved: the sharper invariant along histories (space only inside an opaque path after
-   setters), the per-component delimiter freedom of the stored slices (userinfo / path / query /
-   fragment of every reachable Url), and the host clause *)
+   setters), the per-component delimiter freedom of the stored slices of every REACHABLE Url (proved
+   above: fragment and query of parse results, fragment after set_fragment; not: userinfo and path
+   slices, and preservation of the fragment/query clauses by the other setters), and the host clause *)
 Definition C05_history_sharp_statement : Prop :=
   forall dbg hp hpo hd u, HostOK hp hpo hd -> IpOK hd -> Reachable dbg hp hpo hd u -> sharp u.
 
